@@ -1150,6 +1150,11 @@ def _case_edit(acc, I, source, version, specs, edit, me, summ, path):
         raise HarnessError("reference parser rejects a %s-built index: %s" % (source, summ))
     if source == "git":
         oracle_agree(p0, path, "git-built " + summ)
+    if source == "dulwich" and _entry_lists_diff(_expected(specs, p0.entries), p0.entries):
+        # dulwich's writer did not produce the intended starting index (family W reports that); the edit was
+        # chosen for the intended content and does not apply to what is in the file
+        acc.outcome("E:initial-file-wrong(reported-by-W)")
+        return
     # ---- step 2: read
     r = dul_read(path)
     if r[0] == "exc" or _entry_lists_diff(p0.entries, r[2]):
